@@ -1,8 +1,10 @@
 package main
 
 import (
+	"fmt"
 	"go/ast"
 	"go/types"
+	"os"
 	"strings"
 
 	"golang.org/x/tools/go/ssa"
@@ -33,6 +35,7 @@ type WriteSet struct {
 	Globals map[*ssa.Global]bool
 	Maps    map[string]bool
 	All     bool
+	Unknown bool            // the loop calls a function value that is not known statically (parameter, captured variable, field)
 	Calls   map[string]bool // contracted / spec'd callees whose effects are applied separately
 	Params  map[int]bool    // pointees of the function's own pointer parameters
 }
@@ -63,6 +66,9 @@ func (w *WriteSet) merge(o *WriteSet) {
 	}
 	if o.All {
 		w.All = true
+	}
+	if o.Unknown {
+		w.Unknown = true
 	}
 }
 
@@ -298,7 +304,9 @@ func (c *wsCtx) callWrites(ws *WriteSet, call *ssa.CallCommon, ins ssa.Instructi
 		c.funcWrites(ws, f.Fn.(*ssa.Function), call)
 		return
 	}
-	// unknown function value: any anonymous function of the enclosing function family may run
+	// unknown function value: any anonymous function of the enclosing function family may run; which other
+	// functions can be meant is only known at verification time (havocLoop looks at the function values in scope)
+	ws.Unknown = true
 	if ins != nil && ins.Parent() != nil {
 		root := ins.Parent()
 		for root.Parent() != nil {
@@ -503,3 +511,177 @@ func invokeName(call *ssa.CallCommon) string {
 	recv = strings.ReplaceAll(recv, modulePrefix+"/", "")
 	return "(" + recv + ")." + call.Method.Name()
 }
+
+// clone copies a write set (the cached per-loop set must not be modified by per-activation additions).
+func (w *WriteSet) clone() *WriteSet {
+	n := newWriteSet()
+	n.merge(w)
+	for k := range w.Allocs {
+		n.Allocs[k] = true
+	}
+	for k := range w.Params {
+		n.Params[k] = true
+	}
+	return n
+}
+
+// dynamicCallees adds to ws what the function values that are in scope of the current activation stack may write:
+// a loop that calls through a parameter or a captured variable runs one of them. A function value that is itself
+// unknown (a symbolic parameter of the function under verification) may write anything reachable.
+func (ex *Exec) dynamicCallees(st *State, ws *WriteSet) {
+	c := &wsCtx{ex: ex, memo: map[*ssa.Function]*WriteSet{}, stack: map[*ssa.Function]bool{}}
+	seen := map[*ssa.Function]bool{}
+	// symbolic function values that entered through a parameter with a declared callback frame (they may be reached
+	// again through the cells of closures that captured the parameter)
+	framedVals := map[*FuncV]bool{}
+	for _, f := range st.Frames {
+		for i := range ex.callbackFramed(f) {
+			if i < len(f.Args) {
+				if fv, ok := f.Args[i].(*FuncV); ok && (fv.Fn == nil || len(fv.Fn.Blocks) == 0) {
+					framedVals[fv] = true
+				}
+			}
+		}
+	}
+	var visit func(v Value, depth int)
+	visit = func(v Value, depth int) {
+		if depth > 4 {
+			return
+		}
+		switch x := v.(type) {
+		case *FuncV:
+			if framedVals[x] {
+				return
+			}
+			if x.Fn == nil || len(x.Fn.Blocks) == 0 {
+				if os.Getenv("GOCV_TRACE") != "" {
+					fmt.Fprintf(os.Stderr, "dynamicCallees: unknown function value in scope (%v) -> havoc all\n", x.Fn)
+				}
+				ws.All = true
+				return
+			}
+			if seen[x.Fn] {
+				return
+			}
+			seen[x.Fn] = true
+			w1 := c.fnWS(x.Fn)
+			if os.Getenv("GOCV_TRACE") != "" {
+				fmt.Fprintf(os.Stderr, "dynamicCallees: %s writes fields=%v elems=%v derefs=%v maps=%v params=%v all=%v\n", x.Fn, w1.Fields, w1.Elems, w1.Derefs, w1.Maps, w1.Params, w1.All)
+			}
+			ws.merge(w1)
+			var rec func(f *ssa.Function)
+			rec = func(f *ssa.Function) {
+				for _, af := range f.AnonFuncs {
+					ws.merge(c.fnWS(af))
+					rec(af)
+				}
+			}
+			rec(x.Fn)
+			for _, b := range x.Bind {
+				visit(b, depth+1)
+			}
+		case *PtrV:
+			if x.Obj != nil {
+				if _, isFunc := typeAtPath(x.Obj.Typ, x.Path).Underlying().(*types.Signature); isFunc {
+					visit(ex.load(st, x, nil), depth+1)
+				}
+			}
+		}
+	}
+	for _, f := range st.Frames {
+		framed := ex.callbackFramed(f)
+		for i, a := range f.Args {
+			if framed[i] {
+				if fv, ok := a.(*FuncV); ok && (fv.Fn == nil || len(fv.Fn.Blocks) == 0) {
+					continue // declared callback frame: assumed not to write what the function can reach
+				}
+			}
+			visit(a, 0)
+		}
+		for _, b := range f.Bind {
+			visit(b, 0)
+		}
+		for k, lv := range f.Locals {
+			if _, isParam := k.(*ssa.Parameter); isParam {
+				continue // parameters were looked at through f.Args (where a declared callback frame is honoured)
+			}
+			if _, isFunc := k.Type().Underlying().(*types.Signature); isFunc {
+				visit(lv, 0)
+			}
+		}
+	}
+}
+
+// callbackFramed: positions of the parameters of f's function that carry a declared callback frame.
+func (ex *Exec) callbackFramed(f *Frame) map[int]bool {
+	out := map[int]bool{}
+	if ex.Specs == nil {
+		return out
+	}
+	ct := ex.Specs.Contracts[f.Fn.String()]
+	if ct == nil || len(ct.Callbacks) == 0 {
+		return out
+	}
+	base, haveBase := loadSignatureBaseline()[strings.ReplaceAll(f.Fn.String(), modulePrefix+"/", "")]
+	for i, p := range f.Fn.Params {
+		if ct.Callbacks[p.Name()] || (haveBase && i < len(base.Params) && ct.Callbacks[base.Params[i]]) {
+			out[i] = true
+		}
+	}
+	return out
+}
+
+// intersects: does the write set touch anything of the reach set?
+func (w *WriteSet) intersects(reach *WriteSet) string {
+	if w.All {
+		return "may write anything"
+	}
+	for k := range w.Fields {
+		if reach.Fields[k] {
+			return fmt.Sprintf("field %d of %s", k.Field, k.Struct)
+		}
+	}
+	for k := range w.Elems {
+		if reach.Elems[k] {
+			return "elements of type " + k
+		}
+	}
+	for k := range w.Derefs {
+		if reach.Derefs[k] {
+			return "pointee of type " + k
+		}
+	}
+	for k := range w.Maps {
+		if reach.Maps[k] {
+			return "map of type " + k
+		}
+	}
+	return ""
+}
+
+// checkCallbackFrames: a function with declared callback frames (`callback p assigns nothing`) is verified under the
+// assumption that calls through p do not write memory reachable from its other arguments. The type-based write sets
+// are too coarse to check that at the call sites (everything reachable from a captured receiver counts as written), so
+// each call site is RECORDED and reported as an unchecked assumption in the evidence (trusted base), not discharged.
+func (ex *Exec) checkCallbackFrames(st *State, fr *Frame, ins ssa.Instruction, f *ssa.Function, ct *Contract, args []Value) {
+	if ct == nil || len(ct.Callbacks) == 0 {
+		return
+	}
+	base, haveBase := loadSignatureBaseline()[strings.ReplaceAll(f.String(), modulePrefix+"/", "")]
+	for i, p := range f.Params {
+		if !(ct.Callbacks[p.Name()] || (haveBase && i < len(base.Params) && ct.Callbacks[base.Params[i]])) || i >= len(args) {
+			continue
+		}
+		actual := "an unknown function value"
+		if fv, ok := args[i].(*FuncV); ok && fv.Fn != nil {
+			actual = shortName(ex.fnName(fv.Fn))
+		}
+		if CallbackAssumptions == nil {
+			CallbackAssumptions = map[string]bool{}
+		}
+		CallbackAssumptions[fmt.Sprintf("callback frame (unchecked): %s passes %s as %s of %s; assumed not to write memory reachable from the other arguments of that call", shortName(ex.fnName(fr.Fn)), actual, p.Name(), shortName(ex.fnName(f)))] = true
+	}
+}
+
+// CallbackAssumptions collects the call sites recorded by checkCallbackFrames in this run.
+var CallbackAssumptions map[string]bool
